@@ -352,6 +352,18 @@ func streamC04(c *Ctx) {
 			joinSet[src] = true
 		}
 	}
+	famIns := map[string][]any{}
+	for _, f := range familyBlocks() {
+		if strings.HasPrefix(f.name, "inputs") || f.name == "deep" {
+			continue
+		}
+		for i, src := range f.progs {
+			if c.Tier != "quick" || i%5 == int(c.Seed%5) {
+				progs = append(progs, src)
+				famIns[src] = f.ins
+			}
+		}
+	}
 	corpus, _ := loadCorpus(repoDir())
 	for _, cc := range corpus {
 		progs = append(progs, cc.query)
@@ -376,6 +388,9 @@ func streamC04(c *Ctx) {
 		ins := []any{ext[r.Intn(len(ext))], ext[r.Intn(len(ext))], small12()[r.Intn(12)]}
 		if pbSet[src] {
 			ins = []any{pbi[r.Intn(len(pbi))], pbi[r.Intn(len(pbi))], pbi[r.Intn(5)]}
+		}
+		if fi, ok := famIns[src]; ok {
+			ins = []any{fi[r.Intn(len(fi))], fi[r.Intn(len(fi))]}
 		}
 		if joinSet[src] {
 			ins = []any{ji[r.Intn(2)], ji[2+r.Intn(len(ji)-2)]} // one boolean, one other
